@@ -14,7 +14,7 @@ def spec_programs(ctx, scale=1.0):
         ("c03", "enum", "1", "0", "100"), ("c03", "enum", "2", "0", "1000"),
         ("c03", "rand", str(ctx.seed + 2), n(1500, 20000), "6"),
         ("c03", "specs", str(ctx.seed + 5), n(800, 10000)),
-        ("c05", "enum", "8", "13", "1", "0", "100000"),
+        ("c05", "enum", "8", "25", "1", "0", "100000"),
         ("c05", "rand", str(ctx.seed + 3), n(1500, 20000), "3"),
         ("c05", "rand", str(ctx.seed + 4), n(200, 3000), "5"),
     ]
